@@ -126,14 +126,74 @@ func c20a(c *Ctx) {
 			if push == nil || pop == nil {
 				continue
 			}
-			isPush := func(in ssa.Instruction) bool { ci, ok := in.(ssa.CallInstruction); return ok && callee(ci) == push }
-			isPop := func(in ssa.Instruction) bool { ci, ok := in.(ssa.CallInstruction); return ok && callee(ci) == pop }
-			pushes := callsToIn(fn, push)
+			// the push / pop itself, or a wrapper that performs it on every path (pushLoopScope(loop)
+			// = push on both stacks): pushers maps a function to the index of the pushed argument
+			pushers := map[*ssa.Function]int{push: 1}
+			poppers := map[*ssa.Function]bool{pop: true}
+			for round := 0; round < 2; round++ {
+				for _, g := range c.W.FuncsOf("parser") {
+					if isTestFunc(c.W, g) || len(g.Blocks) == 0 || g == push || g == pop {
+						continue
+					}
+					if _, done := pushers[g]; !done {
+						for _, ci := range callsIn(g) {
+							j, isP := pushers[callee(ci)]
+							if !isP || j >= len(ci.Common().Args) {
+								continue
+							}
+							k := paramIndex(g, unwrapIface(ci.Common().Args[j]))
+							dom := true
+							for _, r := range returnsOf(g) {
+								if !instrDominates(ci.(ssa.Instruction), r) {
+									dom = false
+								}
+							}
+							if k >= 0 && dom && len(g.Blocks) <= 3 {
+								pushers[g] = k
+							}
+						}
+					}
+					if !poppers[g] && len(g.Blocks) <= 3 {
+						for _, ci := range callsIn(g) {
+							if !poppers[callee(ci)] {
+								continue
+							}
+							dom := true
+							for _, r := range returnsOf(g) {
+								if !instrDominates(ci.(ssa.Instruction), r) {
+									dom = false
+								}
+							}
+							if dom {
+								poppers[g] = true
+							}
+						}
+					}
+				}
+			}
+			isPush := func(in ssa.Instruction) bool {
+				ci, ok := in.(ssa.CallInstruction)
+				if !ok || callee(ci) == nil {
+					return false
+				}
+				_, is := pushers[callee(ci)]
+				return is
+			}
+			isPop := func(in ssa.Instruction) bool {
+				ci, ok := in.(ssa.CallInstruction)
+				return ok && callee(ci) != nil && poppers[callee(ci)]
+			}
+			var pushes []ssa.CallInstruction
+			for _, ci := range callsIn(fn) {
+				if isPush(ci.(ssa.Instruction)) {
+					pushes = append(pushes, ci)
+				}
+			}
 			key := s.fn + "/" + strings.ToLower(k) + "-stack"
 			// pushed value is the node that is returned
 			okNode := len(pushes) >= 1
 			for _, pc := range pushes {
-				v := pc.Common().Args[1]
+				v := pc.Common().Args[pushers[callee(pc)]]
 				if mi, ok := v.(*ssa.MakeInterface); ok {
 					v = mi.X
 				}
@@ -158,7 +218,7 @@ func c20a(c *Ctx) {
 				_, noPush := existsPath(pathQuery{from: entry(fn), target: func(in ssa.Instruction) bool { return in == bi }, avoid: isPush})
 				// a pop between the push and the body parse
 				poppedBefore := false
-				for _, pc := range callsToIn(fn, pop) {
+				for _, pc := range popCalls(fn, isPop) {
 					_, reach := existsPath(pathQuery{from: after(pc.(ssa.Instruction)), target: func(in ssa.Instruction) bool { return in == bi }, avoid: isPush})
 					if reach {
 						poppedBefore = true
@@ -181,7 +241,7 @@ func c20a(c *Ctx) {
 				c.Check(!leak, fmt.Sprintf("%s/push#%d-popped", key, i), c.W.Pos(pc.Pos()), "every successful path after the push pops the scope again", "a successful return can be reached after pushing the "+k+" scope without popping it (the scope would leak into following statements)")
 			}
 			// exactly one pop per push on successful paths: no path pop -> pop without push in between
-			for _, pc := range callsToIn(fn, pop) {
+			for _, pc := range popCalls(fn, isPop) {
 				_, twice := existsPath(pathQuery{from: after(pc.(ssa.Instruction)), target: isPop, avoid: isPush})
 				c.Check(!twice, key+"/single-pop", c.W.Pos(pc.Pos()), "one pop per push", "the "+k+" stack can be popped twice for one push")
 			}
@@ -555,4 +615,15 @@ func c20e(c *Ctx) {
 			}
 		}
 	}
+}
+
+// popCalls: the call sites in fn that pop the scope stack (directly or through a wrapper).
+func popCalls(fn *ssa.Function, isPop func(ssa.Instruction) bool) []ssa.CallInstruction {
+	var out []ssa.CallInstruction
+	for _, ci := range callsIn(fn) {
+		if isPop(ci.(ssa.Instruction)) {
+			out = append(out, ci)
+		}
+	}
+	return out
 }
